@@ -131,7 +131,8 @@ deriving Repr, Inhabited
 structure ViewCell where
   kind : VKind
   sigs : List Nat := []               -- linear, sbt: member signature cells (references)
-  vals : List SigVal := []            -- lca: what `insert` copied out of the signatures (flat, by value)
+  vals : List SigVal := []            -- lca: what `insert` copied out of the signatures (flat, by value);
+                                      -- sbt: the members AS THEY WERE when inserted (what the internal nodes were built from)
   db : Nat := 0                       -- lazy: the wrapped view cell (reference)
   store : Nat := 0                    -- zipnm, zipm, standalone, sbtdisk, sqlite, lcasql: the store on disk
   sel : Option Sel := none            -- lazy, zipnm, sqlite, lcasql: the view's OWN selection dict
@@ -333,6 +334,64 @@ def viewSigs (w : World) (vc : ViewCell) : Except String (List SigOut) :=
   | .sqlite | .lcasql =>
     (filterSql (vc.sel.getD []) ((w.stores[vc.store]?).getD [])).map mutableOut
 
+/-! ### what a view ANSWERS besides `signatures()`: `len`, manifest membership, a containment search -/
+
+/-- `ss.md5sum()` is a digest of (ksize, hashes): two sketches have the same md5 iff -/
+def sameMd5 (a b : MH) : Bool := a.ksize == b.ksize && a.mins == b.mins
+
+/-- `ss in view.manifest` (`_md5_set` of a CollectionManifest; `SELECT COUNT(*) … WHERE md5sum=?` over the WHOLE table of
+    a SQLite manifest, whatever its selection; the CSV manifest of a loaded SBT, which select never replaces);
+    `none` = the view has no manifest -/
+def viewMember (w : World) (vc : ViewCell) (m : MH) : Option Bool :=
+  match vc.kind with
+  | .zipm | .multi | .standalone =>
+    some (vc.rows.any (fun r =>
+      match w.rows[r]? with
+      | some row => sameMd5 row.snap.mh m
+      | none => false))
+  | .sbtdisk | .sqlite | .lcasql => some (((w.stores[vc.store]?).getD []).any (fun v => sameMd5 v.mh m))
+  | _ => none
+
+/-- `len(view)` -/
+def viewLen (w : World) (vc : ViewCell) : Except String Nat :=
+  match vc.kind with
+  | .linear | .sbt => .ok (sigCellsOf w vc.sigs).length       -- `len(self._signatures)` / `len(self._leaves)`: picklists ignored
+  | .lazy | .zipnm | .sqlite | .lcasql => (viewSigs w vc).map List.length
+  | .zipm | .multi | .standalone => .ok vc.rows.length       -- `len(self.manifest)`
+  | .lca => .ok vc.vals.length                               -- `_next_index`: picklists ignored
+  | .sbtdisk => .ok ((w.stores[vc.store]?).getD []).length
+
+/-- the probe query of the dump: the signature with the lowest handle that is flat and scaled -/
+def probeOf (w : World) : Option MH :=
+  let hs := (w.sigs.handles.map Prod.fst).mergeSort (· ≤ ·)
+  (hs.filterMap (fun h =>
+    match w.sigs.cell h with
+    | some sc => if sc.val.mh.num == 0 && !sc.val.mh.trackAbundance then some sc.val.mh else none
+    | none => none)).head?
+
+inductive Found where
+  | noProbe
+  | mixed                      -- sketches at another resolution than the probe: not covered
+  | stale                      -- an in-memory SBT one of whose (referenced, mutable) members was given other hashes
+                               -- after insertion: the internal nodes no longer cover it (observation C15.4): not covered
+  | err (e : String)
+  | names (l : List String)
+
+/-- `view.search(probe, threshold=0, do_containment=True)`: the names of the sketches sharing a hash with the probe.
+    (SqliteIndex refuses an EMPTY query: `max()` of no hashes.) -/
+def viewFind (w : World) (vc : ViewCell) : Found :=
+  match probeOf w with
+  | none => .noProbe
+  | some q =>
+    match viewSigs w vc with
+    | .error e => .err e
+    | .ok l =>
+      if l.any (fun o => o.2.mh.maxHash != q.maxHash || o.2.mh.num != 0) then .mixed
+      else if vc.kind == .sbt &&
+          (sigCellsOf w vc.sigs).map (·.val.mh.mins) != vc.vals.map (·.mh.mins) then .stale
+      else if (vc.kind == .sqlite || vc.kind == .lcasql) && q.mins.isEmpty then .err "ValueError"
+      else .names ((l.filter (fun o => !(interL o.2.mh.mins q.mins).isEmpty)).map (·.2.name))
+
 /-! ### primitive effects -/
 
 def World.sigFresh (w : World) (r : Nat) (v : SigVal) (frozen : Bool) : World :=
@@ -490,6 +549,12 @@ inductive Op where
   | vSelectPick (r v : Nat) (names : List String)
   | vGet (r v i : Nat)
   | vRead (name : String) (v : Nat) (qs : List Nat)
+  /-- a read-only call on the MANIFESTS of two views (`a + b`, `b + a`, `a + a`, `==`, `in`, `select_to_manifest`, `_select`,
+      `filter_rows`, `filter_on_columns`, `to_picklist`, `locations`, `len`, iteration, `write_to_csv`) -/
+  | vManifest (name : String) (v u : Nat) (ss : List Nat)
+  /-- an ad-hoc zip whose member files hold `k` signatures each (so that the `ss in manifest` filter of
+      `ZipFileLinearIndex.signatures` matters); same cells as `vZip` -/
+  | vZipGroups (r : Nat) (manifest : Bool) (k : Nat) (ss : List Nat)
 deriving Repr
 
 def World.sigCids (w : World) (ss : List Nat) : Option (List Nat) := ss.mapM w.sigs.cid
@@ -562,7 +627,9 @@ def selectOutcome (w : World) (vc : ViewCell) (kw : Sel) : SelOutcome :=
       | none => .err "ValueError"
       | some d' => .fresh { kind := .zipnm, store := vc.store, sel := some d' }
   | .zipm | .multi | .standalone =>
-    .fresh { kind := vc.kind, store := vc.store, rows := vc.rows.filter (fun r => rowPasses kw (rowMh w r)) }
+    -- (`scaled` of a MultiIndex cell = its `prepend_location` flag, which `select` passes on)
+    .fresh { kind := vc.kind, store := vc.store, rows := vc.rows.filter (fun r => rowPasses kw (rowMh w r)),
+             scaled := vc.scaled }
   | .sbt =>
     -- `first_sig is None`: nothing (left) to select from
     if ((sigCellsOf w vc.sigs).filter (fun c => passesPicks vc.picks c.val.name)).isEmpty then .inplace vc
@@ -737,7 +804,7 @@ def step (w : World) : Op → World × Res
         let rs : List Row := members.filterMap (fun c =>
           (w.sigs.cells[c]?).map (fun sc => { snap := sc.val, sig := some c, hasSigKey := true, loc := none }))
         ({ w with rows := w.rows ++ rs }.viewFresh r
-          { kind := .multi, rows := rowIdsFrom w.rows.length rs.length }, .ok)
+          { kind := .multi, rows := rowIdsFrom w.rows.length rs.length, scaled := r % 2 }, .ok)
     | none => (w, .bad)
   | .vSbt r ss =>
     match w.sigCids ss, w.sigVals ss with
@@ -746,7 +813,7 @@ def step (w : World) : Op → World × Res
       | [] => (w, .bad)
       | v0 :: _ =>
         if !(uniformScaled v0.mh.maxHash vs) then (w, .bad)
-        else (w.viewFresh r { kind := .sbt, sigs := cs, scaled := Py.scaledProp v0.mh }, .ok)
+        else (w.viewFresh r { kind := .sbt, sigs := cs, vals := vs, scaled := Py.scaledProp v0.mh }, .ok)
     | _, _ => (w, .bad)
   | .vLca r ss =>
     match w.sigVals ss with
@@ -803,7 +870,7 @@ def step (w : World) : Op → World × Res
       | .linear => (w.viewSet c { vc with sigs := vc.sigs ++ [sc] }, .ok)
       | .sbt =>
         if scell.val.mh.num ≠ 0 || Py.scaledProp scell.val.mh ≠ vc.scaled then (w, .bad)
-        else (w.viewSet c { vc with sigs := vc.sigs ++ [sc] }, .ok)
+        else (w.viewSet c { vc with sigs := vc.sigs ++ [sc], vals := vc.vals ++ [scell.val] }, .ok)
       | .lca =>
         if scell.val.mh.num ≠ 0 || Py.scaledProp scell.val.mh ≠ vc.scaled || scell.val.name == "" then (w, .bad)
         else if vc.vals.any (fun u => u.name == scell.val.name) then (w, .err "ValueError")
@@ -850,6 +917,22 @@ def step (w : World) : Op → World × Res
     | none => (w, .bad)
   | .vRead _ v qs =>
     if (w.views.cell v).isSome && qs.all (fun s => (w.sigs.cell s).isSome) then (w, .ok) else (w, .bad)
+  | .vManifest _ v u ss =>
+    if (w.views.cell v).isSome && (w.views.cell u).isSome && ss.all (fun s => (w.sigs.cell s).isSome) then (w, .ok)
+    else (w, .bad)
+  | .vZipGroups r manifest k ss =>
+    match w.sigVals ss with
+    | some vs =>
+      if k == 0 || vs.isEmpty || !distinctMins vs then (w, .bad)
+      else
+        let st := w.stores.length
+        let w1 := { w with stores := w.stores ++ [vs] }
+        if manifest then
+          let rs := diskRows st vs true
+          ({ w1 with rows := w.rows ++ rs }.viewFresh r
+            { kind := .zipm, store := st, rows := rowIdsFrom w.rows.length rs.length }, .ok)
+        else (w1.viewFresh r { kind := .zipnm, store := st, sel := none }, .ok)
+    | none => (w, .bad)
 
 /-! ### classification of operations (used by the frame theorems) -/
 
